@@ -74,7 +74,8 @@ Proof.
   assert (Out : output_path o p f = f) by (unfold output_path; rewrite O2, P2; reflexivity).
   rewrite Out.
   assert (GP : get_permissions (fs w) f = mode) by (unfold get_permissions; rewrite St; apply land_small; exact Hm).
-  rewrite GP.
+  assert (EP : effective_perms st (fs w) f = mode) by (unfold effective_perms; rewrite Dw; cbn [rev find]; exact GP).
+  rewrite EP.
   assert (Need : N.eqb (N.land mode write_mask) 0 = false) by (apply N.eqb_neq; exact Hw).
   rewrite Need. cbn [andb].
   rewrite Dw. cbn [rev find].
